@@ -51,7 +51,7 @@ CHECKS = {
          "reads = distinct names passed to Persist.Load", "5/C15"),
  "C16": ("exploration", "Load-counting store monitor per public call",
          "On persisted trees up to height 11 without a cache, every LoadMast, Clone, Cursor, Get, Insert, Delete and cursor move is measured on its own against the bound of the statement (height-changing updates excluded), on fresh clones of the persisted version and on one accumulating tree.",
-         "reads = distinct names loaded during the call", "5/C16"),
+         "a node read = one Persist.Load call (no cache)", "5/C16"),
  "C17": ("fault_enumeration", "child-process crash and I/O-error injection on the real file backend (RLIMIT_FSIZE byte-exact cuts, strace-injected SIGKILL per syscall), restart-and-reload oracle",
          "A child process stores one node through persist/file with the write cut at every byte offset (I/O error mode: EFBIG from RLIMIT_FSIZE; crash mode: SIGKILL injected by strace at each syscall of the Store); the parent then plays the restarted process: Load must be not-found or the complete bytes, a re-Store must make it complete, a Store that reported success must be complete.",
          "crash points are syscall- and byte-granular as seen from the process; durability below the page cache is not observable here", "5/C17"),
